@@ -150,6 +150,15 @@ def run_part(pid, part, tier, seed, rundir, viols, agg, problems):
         cmd = [exe, "-test.run", "^TestCheck$", "-test.timeout", "0"]
         if part.get("ulimit_v_kb"):
             cmd = ["bash", "-c", "ulimit -v %d; exec \"$@\"" % part["ulimit_v_kb"], "sh"] + cmd
+        # network namespace: storrent dials peers it hears about (PEX, trackers); in an empty namespace
+        # such a dial fails at once (ENETUNREACH) instead of waiting for a SYN that is never answered,
+        # which inside a synctest bubble would stall virtual time.  "loopback" also brings lo up.
+        ns = part.get("netns")
+        if ns and netns_ok():
+            if ns == "loopback":
+                cmd = ["unshare", "-n", "sh", "-c", "ip link set lo up 2>/dev/null; exec \"$@\"", "sh"] + cmd
+            else:
+                cmd = ["unshare", "-n", "--"] + cmd
         p = subprocess.Popen(cmd, cwd=rundir, env=e, stdout=lf, stderr=subprocess.STDOUT,
                              start_new_session=True)
         procs[shard] = (p, out, log, time.time(), lf, attempt)
@@ -271,6 +280,21 @@ def run_part(pid, part, tier, seed, rundir, viols, agg, problems):
                             continue
                         viols.append({"kind": "race", "sig": "%s race %s" % (pid, sig),
                                       "detail": block, "case": -1, "part": name})
+
+
+_netns = None
+
+
+def netns_ok():
+    global _netns
+    if _netns is None:
+        try:
+            _netns = subprocess.run(["unshare", "-n", "true"], stdout=subprocess.DEVNULL, stderr=subprocess.DEVNULL, timeout=20).returncode == 0
+        except Exception:
+            _netns = False
+        if not _netns:
+            print("note: unshare -n unavailable, children run in the host network namespace", flush=True)
+    return _netns
 
 
 def read_cur(out):
